@@ -18,7 +18,7 @@ var ensureDocs = []string{
 	`{"a":[1,[2]],"b":{"0":{"1":2}}}`,
 	`[[[1,2,3]]]`,
 }
-var ensureToks = []string{"a", "b", "a~1b", "m~0n", "0", "1", "2", "5", "01", "+1", ""}
+var ensureToks = []string{"a", "b", "a~1b", "m~0n", "0", "1", "2", "5", "01", "+1", "", "٣", "２０"} // (the last two: digits, but not ASCII digits - member names)
 
 var (
 	ensureOnce  sync.Once
@@ -332,6 +332,33 @@ func init() {
 				path := paths[idx/len(ensureDocs)]
 				sc := &SeqCase{DocText: doc, Doc: mustParse(doc), Ops: []ref.Op{{Kind: "add", Path: path, Value: mustParse(val), HasValue: true}}, OpTexts: []string{OpText("add", path, "", val, true)}}
 				judgeEnsure(c, sc, V5Opts{NegIdx: idx%3 != 0, EscapeHTML: true})
+			}},
+			{Name: "ensure-again-after-the-path-was-overwritten", Exhaustive: true, Count: func(core.Tier) int { return 4 * 8 * 2 * 2 }, Run: func(c *core.Ctx, idx int) {
+				// add P/x creates P; then an ancestor of P is overwritten, removed or replaced by something that lacks
+				// P; then add P/y must create P again (nothing an earlier add ensured may be taken for granted)
+				P := [][2]string{{"/a", "/a/b"}, {"/a", "/a/b/c"}, {"/l/0", "/l/0/k"}, {"/a/b", "/a/b/c/d"}}[idx%4]
+				idx /= 4
+				anc, par := P[0], P[1]
+				between := []string{
+					OpText("replace", anc, "", `{}`, true),
+					OpText("replace", anc, "", `{"q":1}`, true),
+					OpText("copy", anc, "/other", "", false),
+					OpText("move", anc, "/other", "", false),
+					OpText("add", "", "", `{"other":{"z":1},"l":[{}]}`, true),
+					OpText("remove", anc, "", "", false),
+					OpText("add", anc, "", `[]`, true),
+					OpText("test", "/other/z", "", "1", true),
+				}[idx%8]
+				idx /= 8
+				doc := []string{`{"other":{"z":1},"l":[{}]}`, `{"other":{"z":1},"l":[{}],"a":{"keep":true}}`}[idx%2]
+				neg := idx/2 == 0
+				texts := []string{OpText("add", par+"/x", "", `"X"`, true), between, OpText("add", par+"/y", "", `"Y"`, true)}
+				sc := &SeqCase{DocText: doc, Doc: mustParse(doc), OpTexts: texts}
+				for _, t := range texts {
+					sc.Ops = append(sc.Ops, opFromText(t))
+				}
+				judgeEnsure(c, sc, V5Opts{NegIdx: neg, EscapeHTML: true})
+				c.Count("ensure-again:cases")
 			}},
 			{Name: "test-then-ensure-add", Count: n(15000, 400000), Run: func(c *core.Ctx, idx int) {
 				// passing test operations come first (on the root, on ancestors of the path, on siblings: comparing
